@@ -36,6 +36,13 @@ def check_subvectors(inp):
         fails.append(failure(we, ev, note="environmental_vector()"))
     if not isinstance(tv, type("")) or not isinstance(ev, type("")):
         return fails
+    try:
+        sub = obs.trivial_subclass(C)(s)            # class Sub(C): pass - an object of the library's class like any other
+        got = (sub.temporal_vector(), sub.environmental_vector())
+    except BaseException as e:  # noqa
+        got = "%s: %s" % (type(e).__name__, e)
+    if got != (wt, we):
+        fails.append(failure([wt, we], got, note="instance of a subclass that adds nothing"))
     for label, x in obs.survivors(C, s):
         try:
             got = (x.temporal_vector(), x.environmental_vector())
